@@ -664,3 +664,318 @@ Proof.
   destruct (calculate_totals unit t w (b_level b) (b_mods b)); try reflexivity.
   rewrite IH. destruct (chain unit (wapply (b_mods b) w) t0 bs); reflexivity.
 Qed.
+
+(* ---------- the main theorem: totals of every round = class sums over that round's accounts ---------- *)
+Lemma state_at_wfold genesis bs r : state_at genesis bs r = wfold (firstn r bs) (wapply genesis []).
+Proof. reflexivity. Qed.
+
+Theorem ledger_run_sums unit genesis bs tr :
+  mods_ok genesis = true -> forallb block_ok bs = true ->
+  ledger_run unit genesis bs = Some tr ->
+  length tr = Datatypes.S (length bs) /\
+  forall r, (r <= length bs)%nat ->
+    nth_error tr r = Some (state_at genesis bs r, spec_totals unit genesis bs r).
+Proof.
+  intros Hg Hok H. unfold ledger_run in H.
+  destruct (genesis_totals unit genesis) as [t0| |] eqn:Eg; try discriminate.
+  destruct (chain unit (wapply genesis []) t0 bs) as [tr1|] eqn:Ec; [|discriminate].
+  inversion H; subst tr. clear H.
+  destruct (genesis_totals_sound _ _ _ Hg Eg) as (Hinv0 & Hl0).
+  split; [cbn; f_equal; exact (chain_length _ _ _ _ _ Ec)|].
+  intros r Hr. destruct r as [|j].
+  - cbn [nth_error]. unfold spec_totals, level_at. rewrite state_at_wfold. cbn [firstn]. unfold wfold. cbn [fold_left].
+    rewrite <- Hl0. rewrite <- (TInv_class_sums _ _ _ Hinv0). reflexivity.
+  - cbn [nth_error]. destruct (nth_error bs j) as [b|] eqn:Ej.
+    2:{ apply nth_error_None in Ej. lia. }
+    destruct (chain_spec _ _ _ _ _ Hinv0 Hok Ec j b Ej) as (t' & Hn & Hi & Hl).
+    rewrite Hn. unfold spec_totals, level_at. rewrite Ej, state_at_wfold, <- Hl.
+    rewrite <- (TInv_class_sums _ _ _ Hi). reflexivity.
+Qed.
+
+(* ---------- the tracker: what is served under any flush / reload schedule ---------- *)
+Inductive TrInv (unit : N) (w0 : world) (t0 : totals) (bs : list block) (s : tracker) : Prop :=
+| mkTrInv (bs1 : list block) (tr2 : list (world * totals))
+    (ti_split : bs = bs1 ++ tr_deltas s)
+    (ti_round : tr_dbround s = N.of_nat (length bs1))
+    (ti_world : tr_dbworld s = wfold bs1 w0)
+    (ti_inv : TInv unit (tr_dbworld s) (tr_dbtotals s))
+    (ti_level : t_level (tr_dbtotals s) =
+                match bs1 with [] => t_level t0 | _ => b_level (last bs1 (mkB 0 [])) end)
+    (ti_chain : chain unit (tr_dbworld s) (tr_dbtotals s) (tr_deltas s) = Some tr2)
+    (ti_totals : tr_round_totals s = tr_dbtotals s :: map snd tr2).
+
+Lemma skipn_map {A B} (f : A -> B) n (l : list A) : skipn n (map f l) = map f (skipn n l).
+Proof. revert l. induction n; intros [|x l]; cbn; auto. Qed.
+
+Lemma last_app_ne {A} (l1 l2 : list A) d : l2 <> [] -> last (l1 ++ l2) d = last l2 d.
+Proof.
+  intros H. induction l1 as [|x l1 IH]; [reflexivity|].
+  cbn [app]. destruct (l1 ++ l2) eqn:E; [destruct l1; cbn in E; [contradiction|discriminate]|].
+  cbn [last]. exact IH.
+Qed.
+
+Lemma tstep_inv unit w0 t0 bs s o s' :
+  TrInv unit w0 t0 bs s ->
+  forallb block_ok (bs ++ blocks_of [o]) = true ->
+  tstep unit s o = Some s' ->
+  TrInv unit w0 t0 (bs ++ blocks_of [o]) s'.
+Proof.
+  intros [bs1 tr2 Hsp Hrd Hw Hinv Hlv Hch Htot] Hok H. destruct o as [b|off|]; cbn [tstep blocks_of] in *.
+  - (* NewBlock *)
+    pose proof (chain_length _ _ _ _ _ Hch) as Hlen.
+    rewrite Htot, <- Hlen, (nth_last_totals tr2 (tr_dbworld s) (tr_dbtotals s)) in H.
+    unfold tr_world in H. fold (wfold (tr_deltas s) (tr_dbworld s)) in H.
+    destruct (calculate_totals unit _ _ (b_level b) (b_mods b)) as [t'| | |] eqn:Ec; try discriminate.
+    inversion H; subst s'. clear H.
+    pose proof (chain_snoc _ _ _ _ _ b t' Hch Ec (chain_last_world _ _ _ _ _ Hch)) as Hch'.
+    refine (mkTrInv _ _ _ _ _ (bs1) (tr2 ++ [(wapply (b_mods b) (wfold (tr_deltas s) (tr_dbworld s)), t')]) _ _ _ _ _ _ _);
+      cbn [tr_deltas tr_dbround tr_dbworld tr_dbtotals tr_round_totals]; try assumption.
+    + rewrite Hsp, app_assoc. reflexivity.
+    + rewrite map_app. reflexivity.
+  - (* Commit *)
+    rewrite app_nil_r in *.
+    destruct (Nat.ltb_spec (length (tr_deltas s)) off) as [Hlt|Hle]; [discriminate|].
+    assert (Hok2 : forallb block_ok (tr_deltas s) = true).
+    { rewrite Hsp, forallb_app in Hok. apply andb_true_iff in Hok as [_ Hok]. exact Hok. }
+    destruct (chain_skip unit off _ _ _ _ Hinv Hok2 Hch Hle) as (t' & Hn & Hi & Hc & Hs).
+    rewrite Htot, Hn in H. inversion H; subst s'. clear H.
+    refine (mkTrInv _ _ _ _ _ (bs1 ++ firstn off (tr_deltas s)) (skipn off tr2) _ _ _ _ _ _ _);
+      cbn [tr_deltas tr_dbround tr_dbworld tr_dbtotals tr_round_totals].
+    + rewrite <- app_assoc, firstn_skipn. exact Hsp.
+    + rewrite app_length, firstn_length_le by exact Hle. rewrite Hrd. lia.
+    + rewrite wfold_app, <- Hw. reflexivity.
+    + fold (wfold (firstn off (tr_deltas s)) (tr_dbworld s)). exact Hi.
+    + destruct off as [|off'].
+      * cbn [firstn]. rewrite app_nil_r. cbn in Hn. inversion Hn; subst t'. exact Hlv.
+      * destruct (tr_deltas s) as [|d0 ds] eqn:Ed; [cbn in Hle; lia|].
+        assert (Hne : firstn (Datatypes.S off') (d0 :: ds) <> []) by (cbn; discriminate).
+        rewrite (last_app_ne bs1 _ _ Hne).
+        destruct (bs1 ++ firstn (Datatypes.S off') (d0 :: ds)) eqn:Eb.
+        { destruct bs1; cbn in Eb; discriminate. }
+        (* the level of the totals reached = level of the last committed block *)
+        assert (Hj : nth_error (d0 :: ds) off' = Some (last (firstn (Datatypes.S off') (d0 :: ds)) (mkB 0 []))).
+        { clear -Hle. revert d0 ds Hle. induction off' as [|o IHo]; intros d0 ds Hle; [reflexivity|].
+          destruct ds as [|d1 ds]; [cbn in Hle; lia|]. cbn [nth_error].
+          rewrite (IHo d1 ds) by (cbn in *; lia). cbn [firstn]. reflexivity. }
+        destruct (chain_spec _ _ _ _ _ Hinv Hok2 Hch off' _ Hj) as (t2 & Hn2 & _ & Hl2).
+        cbn [nth_error] in Hn. rewrite nth_error_map, Hn2 in Hn. cbn in Hn. inversion Hn; subst t2. exact Hl2.
+    + fold (wfold (firstn off (tr_deltas s)) (tr_dbworld s)). exact Hc.
+    + exact Hs.
+  - (* Reload *)
+    rewrite app_nil_r in *. rewrite replay_chain, Hch in H. inversion H; subst s'. clear H.
+    refine (mkTrInv _ _ _ _ _ (bs1) (tr2) _ _ _ _ _ _ _);
+      cbn [tr_deltas tr_dbround tr_dbworld tr_dbtotals tr_round_totals]; try assumption. reflexivity.
+Qed.
+
+Lemma blocks_of_cons o ops : blocks_of (o :: ops) = blocks_of [o] ++ blocks_of ops.
+Proof. destruct o; reflexivity. Qed.
+
+Lemma trun_inv unit w0 t0 : forall ops bs s s',
+  TrInv unit w0 t0 bs s ->
+  forallb block_ok (bs ++ blocks_of ops) = true ->
+  trun unit s ops = Some s' ->
+  TrInv unit w0 t0 (bs ++ blocks_of ops) s'.
+Proof.
+  induction ops as [|o ops IH]; intros bs s s' Hinv Hok H; cbn [trun] in H.
+  - inversion H; subst. cbn [blocks_of]. rewrite app_nil_r. exact Hinv.
+  - destruct (tstep unit s o) as [s1|] eqn:E; [|discriminate].
+    rewrite blocks_of_cons, app_assoc in Hok |- *.
+    apply (IH _ s1); [|exact Hok|exact H].
+    apply (tstep_inv _ _ _ _ s); [exact Hinv| |exact E].
+    rewrite forallb_app in Hok. apply andb_true_iff in Hok as [Hok _]. exact Hok.
+Qed.
+
+Lemma tracker_init_inv unit genesis s0 :
+  mods_ok genesis = true -> tracker_init unit genesis = Some s0 ->
+  exists t0, TrInv unit (wapply genesis []) t0 [] s0 /\ t_level t0 = 0 /\
+             genesis_totals unit genesis = GOk t0.
+Proof.
+  intros Hg H. unfold tracker_init in H.
+  destruct (genesis_totals unit genesis) as [t0| |] eqn:Eg; try discriminate.
+  inversion H; subst s0. clear H. exists t0.
+  destruct (genesis_totals_sound _ _ _ Hg Eg) as (Hinv0 & Hl0).
+  split; [|split; [exact Hl0|reflexivity]].
+  refine (mkTrInv _ _ _ _ _ ([]) ([]) _ _ _ _ _ _ _); cbn; try reflexivity. exact Hinv0.
+Qed.
+
+(* what a tracker satisfying the invariant serves *)
+Lemma serve_spec unit genesis t0 bs s :
+  TrInv unit (wapply genesis []) t0 bs s -> t_level t0 = 0 ->
+  forallb block_ok bs = true ->
+  forall rnd,
+    serve s rnd =
+    if (tr_dbround s <=? rnd) && (rnd <=? N.of_nat (length bs))
+    then Some (spec_totals unit genesis bs (N.to_nat rnd)) else None.
+Proof.
+  intros [bs1 tr2 Hsp Hrd Hw Hinv Hlv Hch Htot] Hl0 Hok rnd. unfold serve.
+  pose proof (chain_length _ _ _ _ _ Hch) as Hlen.
+  assert (Hlb : length bs = (length bs1 + length (tr_deltas s))%nat) by (rewrite Hsp, app_length; reflexivity).
+  destruct (N.ltb_spec rnd (tr_dbround s)) as [Hlo|Hlo].
+  { destruct (N.leb_spec (tr_dbround s) rnd); [lia|reflexivity]. }
+  destruct (N.leb_spec (tr_dbround s) rnd) as [_|]; [|lia]. cbn [andb].
+  destruct (Nat.ltb_spec (length (tr_deltas s)) (N.to_nat (rnd - tr_dbround s))) as [Hhi|Hhi].
+  { destruct (N.leb_spec rnd (N.of_nat (length bs))); [lia|reflexivity]. }
+  destruct (N.leb_spec rnd (N.of_nat (length bs))) as [_|]; [|lia].
+  assert (Hok2 : forallb block_ok (tr_deltas s) = true).
+  { rewrite Hsp, forallb_app in Hok. apply andb_true_iff in Hok as [_ Hok2]. exact Hok2. }
+  remember (N.to_nat (rnd - tr_dbround s)) as off eqn:Eoff.
+  assert (Er : N.to_nat rnd = (length bs1 + off)%nat) by lia.
+  rewrite Er, Htot. unfold spec_totals. rewrite state_at_wfold.
+  assert (Hfirst : firstn (length bs1 + off) bs = bs1 ++ firstn off (tr_deltas s)).
+  { rewrite Hsp. rewrite firstn_app_2. reflexivity. }
+  rewrite Hfirst, wfold_app, <- Hw.
+  destruct off as [|j].
+  - cbn [nth_error firstn]. unfold wfold at 1. cbn [fold_left].
+    f_equal. rewrite (TInv_class_sums _ _ _ Hinv) at 1. f_equal.
+    rewrite Hlv. rewrite Nat.add_0_r. destruct bs1 as [|b1 bs1']; [cbn; exact Hl0|].
+    unfold level_at. cbn [length]. rewrite Hsp.
+    rewrite nth_error_app1 by (cbn; lia).
+    assert (Hlast : nth_error (b1 :: bs1') (length bs1') = Some (last (b1 :: bs1') (mkB 0 []))).
+    { clear. revert b1. induction bs1' as [|b2 l IH]; intros b1; [reflexivity|]. cbn [length nth_error]. rewrite IH. reflexivity. }
+    rewrite Hlast. reflexivity.
+  - cbn [nth_error]. destruct (nth_error (tr_deltas s) j) as [b|] eqn:Ej.
+    2:{ apply nth_error_None in Ej. lia. }
+    destruct (chain_spec _ _ _ _ _ Hinv Hok2 Hch j b Ej) as (t' & Hn & Hi & Hl).
+    rewrite nth_error_map, Hn. cbn [option_map snd]. f_equal.
+    rewrite (TInv_class_sums _ _ _ Hi) at 1. f_equal. rewrite Hl.
+    unfold level_at. replace (length bs1 + Datatypes.S j)%nat with (Datatypes.S (length bs1 + j)) by lia.
+    rewrite Hsp, nth_error_app2 by lia. replace (length bs1 + j - length bs1)%nat with j by lia.
+    rewrite Ej. reflexivity.
+Qed.
+
+Theorem totals_served_any_schedule unit genesis ops s0 s :
+  mods_ok genesis = true -> forallb block_ok (blocks_of ops) = true ->
+  tracker_init unit genesis = Some s0 -> trun unit s0 ops = Some s ->
+  forall rnd,
+    serve s rnd =
+    if (tr_dbround s <=? rnd) && (rnd <=? N.of_nat (length (blocks_of ops)))
+    then Some (spec_totals unit genesis (blocks_of ops) (N.to_nat rnd)) else None.
+Proof.
+  intros Hg Hok Hi Hr rnd.
+  destruct (tracker_init_inv _ _ _ Hg Hi) as (t0 & Hinv0 & Hl0 & _).
+  pose proof (trun_inv unit _ t0 ops [] s0 s Hinv0 Hok Hr) as Hinv. cbn [app] in Hinv.
+  exact (serve_spec _ _ _ _ _ Hinv Hl0 Hok rnd).
+Qed.
+
+Corollary totals_schedule_independent unit genesis ops1 ops2 s01 s02 s1 s2 rnd t1 t2 :
+  mods_ok genesis = true -> forallb block_ok (blocks_of ops1) = true ->
+  blocks_of ops1 = blocks_of ops2 ->
+  tracker_init unit genesis = Some s01 -> trun unit s01 ops1 = Some s1 ->
+  tracker_init unit genesis = Some s02 -> trun unit s02 ops2 = Some s2 ->
+  serve s1 rnd = Some t1 -> serve s2 rnd = Some t2 -> t1 = t2.
+Proof.
+  intros Hg Hok Hb Hi1 Hr1 Hi2 Hr2 H1 H2.
+  rewrite (totals_served_any_schedule _ _ _ _ _ Hg Hok Hi1 Hr1) in H1.
+  rewrite Hb in Hok. rewrite (totals_served_any_schedule _ _ _ _ _ Hg Hok Hi2 Hr2) in H2.
+  rewrite Hb in H1.
+  destruct (_ && _) in H1; [|discriminate]. destruct (_ && _) in H2; [|discriminate]. congruence.
+Qed.
+
+(* ---------- the observable side: summing Ledger.LookupAccount over all addresses ---------- *)
+Lemma ot_add_fits a b : a < W -> b < W -> a + b < W -> ot_add a b false = (a + b, false).
+Proof.
+  intros Ha Hb Hs. unfold ot_add. pose proof (oadd_exact 64 a b Ha Hb) as [Hi He].
+  destruct (oadd 64 a b) as [r o]. cbn [fst snd] in *. destruct o.
+  - rewrite M64 in Hi. destruct Hi as [Hi _]. specialize (Hi eq_refl). lia.
+  - rewrite (He eq_refl). reflexivity.
+Qed.
+Lemma ot_sub_fits a b : a < W -> b < W -> b <= a -> ot_sub a b false = (a - b, false).
+Proof.
+  intros Ha Hb Hs. unfold ot_sub. pose proof (osub_exact 64 a b Ha Hb) as [Hi He].
+  destruct (osub 64 a b) as [r o]. cbn [fst snd] in *. destruct o.
+  - destruct Hi as [Hi _]. specialize (Hi eq_refl). lia.
+  - destruct (He eq_refl) as [-> _]. reflexivity.
+Qed.
+Lemma ot_mul_fits a b : a < W -> b < W -> a * b < W -> ot_mul a b false = (a * b, false).
+Proof.
+  intros Ha Hb Hs. unfold ot_mul. pose proof (omul_exact 64 a b Ha Hb) as [Hi [He _]].
+  destruct (omul 64 a b) as [r o]. cbn [fst snd] in *. destruct o.
+  - rewrite M64 in Hi. destruct Hi as [Hi _]. specialize (Hi eq_refl). lia.
+  - rewrite (He eq_refl). reflexivity.
+Qed.
+
+Lemma wur_fits unit L a : unit <> 0 -> L < W -> acct_good L a -> money_at unit L a < W ->
+  with_updated_rewards unit a L = Some (money_at unit L a).
+Proof.
+  intros Hu HL (Hm & Hr & Hst & Hrb) Hmon. unfold with_updated_rewards, money_at, stNotPart in *.
+  destruct (N.eqb_spec (a_st a) 2) as [E|E]; [reflexivity|].
+  unfold reward_units. destruct (N.eqb_spec unit 0); [contradiction|].
+  specialize (Hrb E). rewrite (ot_sub_fits _ _ HL Hr Hrb). unfold units_of in Hmon.
+  assert (Hd : L - a_rbase a < W) by lia.
+  assert (Hp : a_malgos a / unit * (L - a_rbase a) < W) by lia.
+  rewrite (ot_mul_fits _ _ (div_lt_W _ unit Hm) Hd Hp).
+  rewrite (ot_add_fits _ _ Hm Hp Hmon). reflexivity.
+Qed.
+
+Lemma S_ge g k a w : In (k, a) w -> g a <= S g w.
+Proof.
+  induction w as [|[k' a'] w IH]; [intros []|]. rewrite S_cons. intros [[= -> ->]|Hin]; [lia|].
+  specialize (IH Hin). lia.
+Qed.
+
+Lemma TInv_lookup unit w t k a : TInv unit w t -> unit <> 0 -> In (k, a) w ->
+  lookup_account unit (t_level t) a = Some (a_st a, money_at unit (t_level t) a, a_malgos a).
+Proof.
+  intros (Hlv & Hlt & Hg & Hs) Hu Hin. unfold lookup_account.
+  pose proof (Hg _ _ Hin) as Hgood. destruct Hgood as (Hm & Hr & Hst & Hrb).
+  rewrite wur_fits; [reflexivity|exact Hu|exact Hlv|exact (Hg _ _ Hin)|].
+  destruct (Hs (a_st a) Hst) as [Hsm _]. destruct (Hlt (a_st a) Hst) as [Hb _].
+  pose proof (S_ge (cls_money unit (t_level t) (a_st a)) k a w Hin) as Hge.
+  unfold cls_money at 1 in Hge. rewrite N.eqb_refl in Hge. lia.
+Qed.
+
+(* the answers LookupAccount gives for the accounts of a world *)
+Definition lookups_of (unit L : N) (w : world) : list (N * (N * N * N)) :=
+  map (fun e => (fst e, (a_st (snd e), money_at unit L (snd e), a_malgos (snd e)))) w.
+
+Lemma obs_sums_lookups unit L w : obs_sums unit L (lookups_of unit L w) = class_sums unit L w.
+Proof.
+  unfold obs_sums, class_sums, obs_count, class_count, lookups_of.
+  assert (Hm : forall X, sum_by (fun e : N * (N * N * N) => let '(st, mw, _) := snd e in if st =? X then mw else 0)
+                  (map (fun e : N * acct => (fst e, (a_st (snd e), money_at unit L (snd e), a_malgos (snd e)))) w)
+               = sum_by (fun e => cls_money unit L X (snd e)) w).
+  { intros X. induction w as [|[k a] w IH]; [reflexivity|]. unfold sum_by in *. cbn [map fold_right fst snd]. rewrite IH. reflexivity. }
+  assert (Hu : forall X, sum_by (fun e : N * (N * N * N) => let '(st, _, mo) := snd e in if st =? X then mo / unit else 0)
+                  (map (fun e : N * acct => (fst e, (a_st (snd e), money_at unit L (snd e), a_malgos (snd e)))) w)
+               = sum_by (fun e => cls_units unit X (snd e)) w).
+  { intros X. induction w as [|[k a] w IH]; [reflexivity|]. unfold sum_by in *. cbn [map fold_right fst snd]. Show. rewrite IH. reflexivity. }
+  rewrite !Hm, !Hu. reflexivity.
+Qed.
+
+(* reported totals = sums of what LookupAccount answers, for every round of every history *)
+Theorem totals_eq_lookup_sums unit genesis bs tr r w t :
+  mods_ok genesis = true -> forallb block_ok bs = true -> unit <> 0 ->
+  ledger_run unit genesis bs = Some tr -> nth_error tr r = Some (w, t) ->
+  (forall k a, In (k, a) w ->
+     lookup_account unit (level_at bs r) a = Some (a_st a, money_at unit (level_at bs r) a, a_malgos a)) /\
+  t = obs_sums unit (level_at bs r) (lookups_of unit (level_at bs r) w).
+Proof.
+  intros Hg Hok Hu Hrun Hn.
+  destruct (ledger_run_sums _ _ _ _ Hg Hok Hrun) as (Hlen & Hall).
+  assert (Hr : (r <= length bs)%nat).
+  { assert (r < length tr)%nat by (apply nth_error_Some; congruence). lia. }
+  rewrite (Hall r Hr) in Hn. inversion Hn; subst w t. clear Hn.
+  rewrite obs_sums_lookups. split; [|reflexivity].
+  (* the invariant at round r *)
+  unfold ledger_run in Hrun.
+  destruct (genesis_totals unit genesis) as [t0| |] eqn:Eg; try discriminate.
+  destruct (chain unit (wapply genesis []) t0 bs) as [tr1|] eqn:Ec; [|discriminate].
+  destruct (genesis_totals_sound _ _ _ Hg Eg) as (Hinv0 & Hl0).
+  intros k a Hin. destruct r as [|j].
+  - unfold level_at. rewrite <- Hl0. apply (TInv_lookup unit (state_at genesis bs 0) t0 k a); try assumption.
+  - destruct (nth_error bs j) as [b|] eqn:Ej.
+    2:{ apply nth_error_None in Ej. lia. }
+    destruct (chain_spec _ _ _ _ _ Hinv0 Hok Ec j b Ej) as (t' & _ & Hi & Hl).
+    unfold level_at. rewrite Ej, <- Hl. apply (TInv_lookup unit _ t' k a); try assumption.
+Qed.
+
+(* ---------- the executable comparisons used by [check] decide equality ---------- *)
+Lemma ac_eqb_eq a b : ac_eqb a b = true <-> a = b.
+Proof.
+  unfold ac_eqb. rewrite andb_true_iff, !N.eqb_eq. destruct a, b; cbn. split; [intros [-> ->]; reflexivity|intros [= -> ->]; auto].
+Qed.
+Lemma totals_eqb_eq a b : totals_eqb a b = true <-> a = b.
+Proof.
+  unfold totals_eqb. rewrite !andb_true_iff, !ac_eqb_eq, N.eqb_eq. destruct a, b; cbn.
+  split; [intros [[[-> ->] ->] ->]; reflexivity|intros [= -> -> -> ->]; auto].
+Qed.
